@@ -221,6 +221,36 @@ def generate(ctx, n_ops):
                 continue
             q = ctx.nq
             ctx.nq += 1
+            # a level compares equal to the quantity it denotes, in both argument orders, and to a level of the
+            # same magnitude; not to twice that quantity (Level.__eq__, Quantity.__eq__ with a Level operand)
+            for line, want in (("X\teq\tL%d\tq%d" % (lv, q), "ok\tb\ttrue"), ("X\teq\tq%d\tL%d" % (q, lv), "ok\tb\ttrue"),
+                               ("X\tne\tL%d\tq%d" % (lv, q), "ok\tb\tfalse")):
+                if rng.random() < 0.5:
+                    ctx.pending[line] = want
+                    res = yield line
+                    emitted += 1
+            if rng.random() < 0.4:
+                res = yield "X\tmul\tq%d\ti:2" % q
+                emitted += 1
+                if res.startswith("ok\tq"):
+                    q2 = ctx.nq
+                    ctx.nq += 1
+                    line = "X\teq\tL%d\tq%d" % (lv, q2)
+                    zero = float(ctx.sess.qs[q].magnitude) == 0.0 or float(ctx.sess.qs[q].magnitude) == float(ctx.sess.qs[q2].magnitude)
+                    if not zero:
+                        ctx.pending[line] = "ok\tb\tfalse"
+                    res = yield line
+                    emitted += 1
+            if rng.random() < 0.4:
+                res = yield "X\tlnew\t%s\tn:%d" % (lm, li)
+                emitted += 1
+                if res.startswith("ok\tL"):
+                    lv2 = ctx.nl
+                    ctx.nl += 1
+                    line = "X\teq\tL%d\tL%d" % (lv, lv2)
+                    ctx.pending[line] = "ok\tb\ttrue"
+                    res = yield line
+                    emitted += 1
             # level -> quantity -> level
             res = yield "X\tlevel\tn:%d\tq%d" % (li, q)
             emitted += 1
